@@ -17,12 +17,9 @@ func (g *fastGenerator) genUnmarshalMethod() {
 	// UNMARSHAL METHOD
 	g.P(`unmarshal := func(input `, protoifacePkg.Ident("UnmarshalInput"), `) (`, protoifacePkg.Ident("UnmarshalOutput"), `, error) {`)
 	g.P(`x := input.Message.Interface().(*`, g.message.GoIdent, `)`)
-	g.P(`if x == nil {`)
-	g.P(`return `, protoifacePkg.Ident("UnmarshalOutput"), ` {`)
-	g.P("NoUnkeyedLiterals: input.NoUnkeyedLiterals,")
-	g.P("Flags:               input.Flags,")
-	g.P("}, nil")
-	g.P("}")
+	// no early return for a nil receiver: decoding INTO a nil message must not succeed while
+	// dropping the data (an empty input stores nothing and is fine; anything else hits the nil
+	// pointer and panics, as it does for protobuf-go's own generated types)
 	g.P("options := ", runtimePackage.Ident("UnmarshalInputToOptions"), "(input)")
 	g.P("_ = options")
 	// input.Depth is the remaining message nesting budget (see protoiface.UnmarshalInput)
